@@ -9,6 +9,14 @@
 // message handlers) where a message exists and through exported keeper functions otherwise;
 // the consensus end-blocker functions are called directly.  Every q06BlockEvery-th case of
 // TestC06/TestC14 is instead driven through real transactions and real blocks.
+//
+// Dimensions of the generators that exist because a seeded change once slipped through without them:
+// validators hold accounts with DIFFERENT keys on sibling chains of the same chain type (chains 1, 2
+// = "other-chain-<n>", chain 0 = the queue's chain) and claim them when signing; signatures are
+// submitted in every byte form (q06Wires), not only as crypto.Sign renders them; queues grow beyond
+// the page size of the queries (opPutN, directed valset_behind_backlog); evidence is re-submitted
+// (TestC13Prune).  Monitors evaluate the property on what the harness itself did and saw registered,
+// never on what the implementation stored.
 package harness
 
 import (
@@ -51,6 +59,35 @@ const (
 )
 
 var errQ06Discard = errors.New("q06: discard case state")
+
+// q06Wires are the byte forms in which an (r, s, v) signature is submitted: "c" r‖s‖v with v in {0,1}
+// (what crypto.Sign / pigeon produce), "h" the twin (r, n-s, v^1) that recovers the same key, "w" v
+// spelled 27/28 (wallet / personal_sign style), "r" v+2, "s" 64 bytes (v missing), "l" 66 bytes.
+var q06Wires = []string{"c", "h", "w", "r", "s", "l"}
+
+func q06WireForm(sig []byte, wire string) []byte {
+	out := append([]byte(nil), sig...)
+	if len(out) != 65 {
+		return out
+	}
+	switch wire {
+	case "h":
+		n := ethcrypto.S256().Params().N
+		x := new(big.Int).SetBytes(out[32:64])
+		x.Sub(n, x)
+		x.FillBytes(out[32:64])
+		out[64] ^= 1
+	case "w":
+		out[64] += 27
+	case "r":
+		out[64] += 2
+	case "s":
+		out = out[:64]
+	case "l":
+		out = append(out, 0)
+	}
+	return out
+}
 
 // q06Fix is the fixture shared by the four tests.
 type q06Fix struct {
@@ -312,8 +349,16 @@ func (r *Rec) q06GenEnv(fx *q06Fix, maxSnap int) q06Env {
 			if r.Rng.Intn(2) == 0 {
 				v.accts = []q06Acct{{chain: 1, addr: 4 * (i + 1), raw: 4 * (i + 1), mev: true}}
 			}
-		case 1: // another chain's account first
-			v.accts = []q06Acct{{chain: 1, addr: 4*(i+1) + 1, raw: 4 * (i + 1), mev: !own.mev}, own}
+		case 1: // another chain's account first: same key in another spelling, or a different key altogether
+			if r.Rng.Intn(2) == 0 {
+				v.accts = []q06Acct{{chain: 1, addr: 4*(i+1) + 1, raw: 4 * (i + 1), mev: !own.mev}, own}
+			} else {
+				e := fx.n + 1 + r.Rng.Intn(q06ExtraKeys)
+				v.accts = []q06Acct{{chain: 1 + r.Rng.Intn(2), addr: 4 * e, raw: 4 * e, mev: !own.mev}, own}
+				if r.Rng.Intn(3) == 0 {
+					v.accts = append(v.accts, q06Acct{chain: 2, addr: 4*e + 1, raw: 4 * e, mev: true})
+				}
+			}
 		case 2: // two accounts on the target chain: only the first one counts
 			v.accts = []q06Acct{own, {chain: 0, addr: 4*(i+1) + 1, raw: 4*(i+1) + 1, mev: !own.mev}}
 		case 3: // address spelled in lower case
@@ -1038,6 +1083,12 @@ func q06SignErr(err error) string {
 }
 
 func (c *q06Case) opSign(id uint64, valIdx, addr, by int, ref string) string {
+	return c.opSignW(id, valIdx, addr, by, ref, "c")
+}
+
+// opSignW: validator valIdx submits, claiming address string `addr`, a signature made by eth key
+// `by` over the bytes `ref`, in byte form `wire`.
+func (c *q06Case) opSignW(id uint64, valIdx, addr, by int, ref, wire string) string {
 	var cur []byte
 	if m := c.msg(id); m != nil {
 		cur = c.bytesOf(m)
@@ -1051,6 +1102,7 @@ func (c *q06Case) opSign(id uint64, valIdx, addr, by int, ref string) string {
 		sig = make([]byte, 65)
 		c.r.Rng.Read(sig[:64])
 	}
+	sig = q06WireForm(sig, wire)
 	// the key the validator has registered for (chain, address) right now
 	var regKey []byte
 	for _, a := range c.regsOf(valIdx) {
@@ -1065,7 +1117,12 @@ func (c *q06Case) opSign(id uint64, valIdx, addr, by int, ref string) string {
 	if res == "ok" {
 		c.keyAtSign[fmt.Sprintf("%d/%s", id, v.ValAddr().String())] = regKey
 	}
-	c.op(fmt.Sprintf("sign %d %d %d %d %s", id, c.fx.valID[valIdx], addr, by, ref), res+" "+c.showID(id))
+	line := fmt.Sprintf("sign %d %d %d %d %s", id, c.fx.valID[valIdx], addr, by, ref)
+	if wire != "c" {
+		line += " " + wire
+		c.r.Stat("sign.wire." + wire + "." + res)
+	}
+	c.op(line, res+" "+c.showID(id))
 	c.r.Stat("sign." + res)
 	return res
 }
@@ -1192,10 +1249,35 @@ func (c *q06Case) opRemove(id uint64) {
 	c.r.Stat("op.rm")
 }
 
+// q06RelayInfo is what the relay clauses of C14 need to know about one queued message.
+type q06RelayInfo struct {
+	id       uint64
+	kind     string
+	sender   int
+	assignee int
+	reported bool
+	needsEst bool
+}
+
 // opRelay compares GetMessagesForRelaying(v) with the model for every validator and evaluates
-// the relay clauses of C14 directly.
+// the relay clauses of C14 directly, against the WHOLE queue as read from the store.
 func (c *q06Case) opRelay() {
 	all := c.msgs()
+	infos := make([]q06RelayInfo, len(all))
+	byID := map[uint64]int{}
+	var valsets []uint64 // ids of the pending validator-set updates, ascending
+	for i, m := range all {
+		em := c.evm(m)
+		infos[i] = q06RelayInfo{id: m.GetId(), kind: q06Kind(em), sender: c.senderOf(em), assignee: c.fx.idOfValStr(em.Assignee),
+			reported: m.GetPublicAccessData() != nil || m.GetErrorData() != nil, needsEst: m.GetRequireGasEstimation() && m.GetGasEstimate() == 0}
+		byID[m.GetId()] = i
+		if infos[i].kind == "v" {
+			valsets = append(valsets, m.GetId())
+		}
+	}
+	if len(all) > 1000 {
+		c.r.Stat("relay.queue_over_1000")
+	}
 	ids := map[int]bool{}
 	for i := 0; i < c.fx.n; i++ {
 		ids[c.fx.valID[i]] = true
@@ -1214,33 +1296,34 @@ func (c *q06Case) opRelay() {
 		var out []uint64
 		for _, m := range got {
 			out = append(out, m.GetId())
-			em := c.evm(m)
-			if c.fx.idOfValStr(em.Assignee) != vid {
-				c.hit("offered_only_to_assignee", fmt.Sprintf("msg %d offered to %d", m.GetId(), vid))
+			ix, ok := byID[m.GetId()]
+			if !ok {
+				c.hit("offered_only_queued", fmt.Sprintf("msg %d offered to %d is not in the queue", m.GetId(), vid))
+				continue
 			}
-			if m.GetRequireGasEstimation() && m.GetGasEstimate() == 0 {
-				c.hit("offered_only_with_elected_estimate", fmt.Sprintf("msg %d", m.GetId()))
+			in := infos[ix]
+			if in.assignee != vid {
+				c.hit("offered_only_to_assignee", fmt.Sprintf("msg %d offered to %d", in.id, vid))
 			}
-			if m.GetPublicAccessData() != nil || m.GetErrorData() != nil {
-				c.hit("offered_only_unreported", fmt.Sprintf("msg %d", m.GetId()))
+			if in.needsEst {
+				c.hit("offered_only_with_elected_estimate", fmt.Sprintf("msg %d", in.id))
 			}
-			k := q06Kind(em)
-			snd := c.senderOf(em)
-			for _, o := range all {
-				if o.GetId() >= m.GetId() {
-					continue
-				}
-				oe := c.evm(o)
-				ok := q06Kind(oe)
-				if ok == "v" {
-					c.hit("not_ahead_of_valset_update", fmt.Sprintf("msg %d offered while valset update %d is pending", m.GetId(), o.GetId()))
-				}
-				if (k == "s" || k == "u") && snd != 0 && (ok == "s" || ok == "u") && c.senderOf(oe) == snd &&
-					o.GetPublicAccessData() == nil && o.GetErrorData() == nil {
-					if k == "s" && ok == "s" {
-						c.hit("one_per_sender", fmt.Sprintf("msg %d offered while older msg %d of sender %d is pending", m.GetId(), o.GetId(), snd))
-					} else {
-						c.hit("one_per_sender_uusc", fmt.Sprintf("msg %d (%s) offered while older msg %d (%s) of the same sender %d is pending", m.GetId(), k, o.GetId(), ok, snd))
+			if in.reported {
+				c.hit("offered_only_unreported", fmt.Sprintf("msg %d", in.id))
+			}
+			// never ahead of an older pending validator-set update, wherever in the queue it sits
+			if len(valsets) > 0 && valsets[0] < in.id {
+				c.hit("not_ahead_of_valset_update", fmt.Sprintf("msg %d offered while valset update %d (queue position %d of %d) is pending", in.id, valsets[0], byID[valsets[0]]+1, len(all)))
+			}
+			if (in.kind == "s" || in.kind == "u") && in.sender != 0 {
+				for _, o := range infos[:ix] {
+					if (o.kind == "s" || o.kind == "u") && o.sender == in.sender && !o.reported {
+						if in.kind == "s" && o.kind == "s" {
+							c.hit("one_per_sender", fmt.Sprintf("msg %d offered while older msg %d of sender %d is pending", in.id, o.id, in.sender))
+						} else {
+							c.hit("one_per_sender_uusc", fmt.Sprintf("msg %d (%s) offered while older msg %d (%s) of the same sender %d is pending", in.id, in.kind, o.id, o.kind, in.sender))
+						}
+						break
 					}
 				}
 			}
@@ -1251,6 +1334,33 @@ func (c *q06Case) opRelay() {
 		c.op(fmt.Sprintf("relay %d", vid), u64List(out))
 	}
 	c.changed = false
+}
+
+// opPutN enqueues n messages of one shape in a row (a backlog); one op line.
+func (c *q06Case) opPutN(n int, kind string, sender, assignee, remote int, req bool) (first, last uint64) {
+	if kind == "v" || kind == "o" {
+		sender = 0
+	}
+	start := c.content + 1
+	for i := 0; i < n; i++ {
+		c.content++
+		m, _ := c.action(kind, c.content, sender, false)
+		m.Assignee = c.fx.valAddrOfID(assignee).String()
+		m.AssigneeRemoteAddress = c.fx.addrStr[remote]
+		id, err := c.fx.fa.App().ConsensusKeeper.PutMessageInQueue(c.ctx, c.fx.queue, m, &consensuskeeper.PutOptions{RequireGasEstimation: req, RequireSignatures: true})
+		if err != nil {
+			c.fx.t.Fatalf("put: %v", err)
+		}
+		if i == 0 {
+			first = id
+		}
+		last = id
+		c.ids = append(c.ids, id)
+	}
+	c.changed = true
+	c.op(fmt.Sprintf("putn %d %s %d %d %d %d %s", n, kind, start, sender, assignee, remote, q06B(req)), fmt.Sprintf("%d %d %d", first, last, len(c.msgs())))
+	c.r.Stat("op.putn")
+	return first, last
 }
 
 func q06RegErr(err error) string {
@@ -1325,6 +1435,10 @@ func q06ConfErr(err error) string {
 }
 
 func (c *q06Case) opBatchConfirm(nonce uint64, valIdx, addr, by int, ref string) string {
+	return c.opBatchConfirmW(nonce, valIdx, addr, by, ref, "c")
+}
+
+func (c *q06Case) opBatchConfirmW(nonce uint64, valIdx, addr, by int, ref, wire string) string {
 	var cur []byte
 	if b := c.batch(nonce); b != nil {
 		cur, _ = b.GetCheckpoint(c.fx.turnstone)
@@ -1337,11 +1451,17 @@ func (c *q06Case) opBatchConfirm(nonce uint64, valIdx, addr, by int, ref string)
 		sig = make([]byte, 65)
 		c.r.Rng.Read(sig[:64])
 	}
+	sig = q06WireForm(sig, wire)
 	v := c.fx.fa.Vals[valIdx]
 	err := c.route(&skytypes.MsgConfirmBatch{Nonce: nonce, TokenContract: q06Token, EthSigner: c.fx.addrStr[addr], Orchestrator: v.Addr.String(),
 		Signature: hex.EncodeToString(sig), Metadata: FAMeta(v.Addr, v.Addr)})
 	res := q06ConfErr(err)
-	c.op(fmt.Sprintf("bconf %d %d %d %d %s", nonce, c.fx.valID[valIdx], addr, by, ref), res+" "+c.showBatch(nonce))
+	line := fmt.Sprintf("bconf %d %d %d %d %s", nonce, c.fx.valID[valIdx], addr, by, ref)
+	if wire != "c" {
+		line += " " + wire
+		c.r.Stat("bconf.wire." + wire + "." + strings.SplitN(res, ":", 2)[0])
+	}
+	c.op(line, res+" "+c.showBatch(nonce))
 	c.r.Stat("bconf." + strings.SplitN(res, ":", 2)[0])
 	return res
 }
@@ -1408,8 +1528,20 @@ func (c *q06Case) ownAccount(valIdx int) (addr, raw int, ok bool) {
 	return 0, 0, false
 }
 
+// siblingAccounts: what the validator has registered for chains other than the queue's.
+func (c *q06Case) siblingAccounts(valIdx int) []q06Acct {
+	var out []q06Acct
+	for _, a := range c.regsOf(valIdx) {
+		if a.chain != 0 {
+			out = append(out, a)
+		}
+	}
+	return out
+}
+
 // genSign draws one signing attempt: mostly valid, sometimes with a wrong key, stale or
-// unrelated bytes, an address the validator has not registered, or garbage.
+// unrelated bytes, an address the validator has not registered, garbage, an otherwise valid
+// signature in another byte form, or the address / key the validator registered for a sibling chain.
 func (c *q06Case) genSign(id uint64) {
 	r := c.r.Rng
 	valIdx := r.Intn(c.fx.n)
@@ -1417,8 +1549,8 @@ func (c *q06Case) genSign(id uint64) {
 	if !ok {
 		addr, raw = 4*(valIdx+1), 4*(valIdx+1)
 	}
-	by, ref := raw/4, "c"
-	switch r.Intn(14) {
+	by, ref, wire := raw/4, "c", "c"
+	switch r.Intn(19) {
 	case 0:
 		by = 1 + r.Intn(len(c.fx.ethKeys)) // signed with some other key
 	case 1:
@@ -1431,8 +1563,34 @@ func (c *q06Case) genSign(id uint64) {
 		}
 	case 5:
 		addr = 4*(1+r.Intn(len(c.fx.ethKeys))) + r.Intn(3) // an address the validator may not hold
+	case 6, 7, 8: // right key, right bytes, another rendering of the signature
+		wire = q06Wires[1+r.Intn(len(q06Wires)-1)]
+	case 9, 10, 11: // a validator that holds an account on a sibling chain
+		for k, off := 0, r.Intn(c.fx.n); k < c.fx.n; k++ {
+			if vi := (off + k) % c.fx.n; len(c.siblingAccounts(vi)) > 0 {
+				valIdx = vi
+				if a, kx, ok := c.ownAccount(vi); ok {
+					addr, by = a, kx/4
+				} else {
+					addr, by = 4*(vi+1), vi+1
+				}
+				break
+			}
+		}
+		if sib := c.siblingAccounts(valIdx); len(sib) > 0 {
+			a := sib[r.Intn(len(sib))]
+			switch r.Intn(4) {
+			case 0: // own address, signed with the sibling chain's key
+				by = a.raw / 4
+			case 1: // the sibling chain's address, signed with the own key
+				addr = a.addr
+			default: // the sibling chain's address and key
+				addr, by = a.addr, a.raw/4
+			}
+			c.r.Stat("sign.sibling_claim")
+		}
 	}
-	c.opSign(id, valIdx, addr, by, ref)
+	c.opSignW(id, valIdx, addr, by, ref, wire)
 }
 
 // genReg draws a re-registration: rotate to a fresh key, take over an address another
@@ -1457,6 +1615,37 @@ func (c *q06Case) genReg() {
 		accts = []q06Acct{{chain: 0, addr: 4 * (valIdx + 1), raw: 4 * (valIdx + 1), mev: r.Intn(2) == 0}}
 	}
 	c.opReg(valIdx, accts)
+}
+
+// genRegSibling: the validator keeps (or not) its account on the queue's chain and registers an account
+// with ANOTHER key on one or two sibling chains of the same chain type — a fresh key, or the very
+// address and key another validator uses on the queue's chain (no collision: other chain).
+func (c *q06Case) genRegSibling() {
+	r := c.r.Rng
+	valIdx := r.Intn(c.fx.n)
+	own := q06Acct{chain: 0, addr: 4 * (valIdx + 1), raw: 4 * (valIdx + 1), mev: r.Intn(2) == 0}
+	if a, k, ok := c.ownAccount(valIdx); ok && r.Intn(3) != 0 {
+		own.addr, own.raw = a, k
+	}
+	e := c.fx.n + 1 + r.Intn(q06ExtraKeys)
+	if r.Intn(3) == 0 {
+		e = 1 + r.Intn(c.fx.n) // somebody's key on the queue's chain
+	}
+	sib := q06Acct{chain: 1 + r.Intn(2), addr: 4 * e, raw: 4 * e, mev: r.Intn(2) == 0}
+	var accts []q06Acct
+	switch r.Intn(5) {
+	case 0:
+		accts = []q06Acct{sib} // leaves the queue's chain
+	case 1, 2:
+		accts = []q06Acct{sib, own}
+	case 3:
+		accts = []q06Acct{own, sib}
+	default:
+		e2 := c.fx.n + 1 + r.Intn(q06ExtraKeys)
+		accts = []q06Acct{sib, own, {chain: 3 - sib.chain, addr: 4*e2 + r.Intn(2), raw: 4 * e2}}
+	}
+	c.opReg(valIdx, accts)
+	c.r.Stat("op.reg_sibling")
 }
 
 // genTakeover: validator X confirms a batch (or signs a message), rotates to a fresh key, validator Y
@@ -1584,7 +1773,11 @@ func (c *q06Case) runOps(focus string, nOps int) {
 			case x < 58:
 				c.opEndBlock()
 			case x < 68:
-				c.genReg()
+				if r.Intn(3) == 0 {
+					c.genRegSibling()
+				} else {
+					c.genReg()
+				}
 			case x < 74:
 				c.genPut()
 			case x < 78:
@@ -1610,8 +1803,8 @@ func (c *q06Case) runOps(focus string, nOps int) {
 				if !ok {
 					addr = 4 * (valIdx + 1)
 				}
-				by, ref := addr/4, "c"
-				switch r.Intn(10) {
+				by, ref, wire := addr/4, "c", "c"
+				switch r.Intn(13) {
 				case 0:
 					by = 1 + r.Intn(len(c.fx.ethKeys))
 				case 1:
@@ -1624,8 +1817,15 @@ func (c *q06Case) runOps(focus string, nOps int) {
 					addr = 4*(1+r.Intn(len(c.fx.ethKeys))) + r.Intn(3)
 				case 4:
 					addr = addr/4*4 + r.Intn(3) // other spelling of the own address
+				case 5, 6: // another rendering of the signature
+					wire = q06Wires[1+r.Intn(len(q06Wires)-1)]
+				case 7: // the account of a sibling chain
+					if sib := c.siblingAccounts(valIdx); len(sib) > 0 {
+						a := sib[r.Intn(len(sib))]
+						addr, by = a.addr, a.raw/4
+					}
 				}
-				c.opBatchConfirm(n, valIdx, addr, by, ref)
+				c.opBatchConfirmW(n, valIdx, addr, by, ref, wire)
 			case x < 98:
 				c.genTakeover()
 			default:
